@@ -277,8 +277,10 @@ func verifyPartChecksums(part part.Entity, calculated storage.ChecksumValues) er
 }
 
 func verifyObjectChecksums(object storage.Object, parts []part.Entity, partChecksums []storage.ChecksumValues) error {
-	// If single part, object checksums should match part checksums
-	if len(parts) == 1 {
+	// If single part and not a multipart-style (composite "-N") ETag, object
+	// checksums should match part checksums. Appended objects and multipart
+	// uploads completed with one part carry a "-1" ETag over a single part.
+	if len(parts) == 1 && !strings.Contains(object.ETag, "-") {
 		calculated := partChecksums[0]
 
 		if object.ETag != "" && calculated.ETag != nil {
